@@ -31,7 +31,7 @@ REPO = os.environ.get("BARDIC_REPO", "/repo")
 COQ = os.path.join(VERIF, "coq")
 EVIDENCE = os.path.join(VERIF, "evidence")
 REPLAYS = os.path.join(EVIDENCE, "replays")
-KNOWN = os.path.join(VERIF, "known_findings.json")
+KNOWN = os.environ.get("BARDIC_KNOWN") or os.path.join(VERIF, "known_findings.json")  # env override: development only
 GUARD = "BARDIC_VERIF"
 
 STD_AXIOMS_ALLOWED: set[str] = set()  # the development is closed; nothing is expected here
